@@ -1,7 +1,7 @@
 /-
-C07, owner-side vs provider-side tallies: with a single fee denom a per-provider withdrawal lowers the
-owner-side tally by exactly what the provider had earned (the partial statement that F-svc-2 leaves
-true), and an answer raises both tallies by the same amount.
+C07, owner-side vs provider-side tallies (after the repair of `SetOwnerEarnedFees`, /repo 5529ca8):
+a per-provider withdrawal — with any number of fee denoms — and an answer keep
+`Σ earned fees of the owner's providers = owner-side tally`, per owner and denom.
 -/
 import Irismod.Proofs.ServiceDelta
 
@@ -11,174 +11,380 @@ open Irismod Irismod.Sdk Irismod.Service Irismod.Spec.C07
 /-- no key occurs twice -/
 def KeysNodup {K V : Type} (m : AMap K V) : Prop := (m.map (·.1)).Nodup
 
-/-- with one denom per table and unique keys, the entries of an account are at most one coin -/
-theorem entriesOf_single (d0 : Denom) : ∀ (m : AMap (Addr × Denom) Nat) (a : Addr), KeysNodup m →
-    (∀ e, e ∈ m → e.1.2 = d0) →
-    entriesOf m a = (match AMap.get? m (a, d0) with | some v => [(d0, v)] | none => [])
-  | [], _, _, _ => rfl
-  | ((a', d'), v) :: t, a, hn, hd => by
-    have hd' : d' = d0 := hd ((a', d'), v) (List.mem_cons_self ..)
-    subst hd'
-    unfold KeysNodup at hn
-    simp only [List.map_cons, List.nodup_cons] at hn
-    have ih := entriesOf_single d' t a hn.2 (fun e he => hd e (List.mem_cons_of_mem _ he))
-    unfold entriesOf at ih ⊢
-    by_cases ha : a' = a
-    · subst ha
-      simp only [List.filter_cons, decide_true, if_true, List.map_cons, AMap.get?]
-      have hnone : AMap.get? t (a', d') = none := by
-        cases hg : AMap.get? t (a', d') with
-        | none => rfl
-        | some w =>
-          exfalso
-          apply hn.1
-          clear ih hn hd
-          induction t with
-          | nil => simp [AMap.get?] at hg
-          | cons e rest ihr =>
-            obtain ⟨k, x⟩ := e
-            simp only [AMap.get?] at hg
-            split at hg
-            · rename_i hk; simp [hk]
-            · simp only [List.map_cons, List.mem_cons]; exact Or.inr (ihr hg)
-      rw [hnone] at ih
-      rw [ih]
-    · have hk : ¬ ((a', d') = (a, d')) := fun e => ha (Prod.mk.inj e).1
-      simp only [List.filter_cons, ha, decide_false, Bool.false_eq_true, if_false, AMap.get?, hk]
-      exact ih
+/-! ### keys of association lists -/
 
-theorem sumIf_key_get? {K : Type} [DecidableEq K] : ∀ (m : AMap K Nat) (k : K), KeysNodup m →
-    AMap.sumIf (fun x => decide (x = k)) id m = (AMap.get? m k).getD 0
-  | [], _, _ => rfl
-  | (k0, v) :: t, k, hn => by
-    unfold KeysNodup at hn
-    simp only [List.map_cons, List.nodup_cons] at hn
-    have ih := sumIf_key_get? t k hn.2
+theorem keys_set {K V : Type} [DecidableEq K] (m : AMap K V) (k : K) (v : V) :
+    (AMap.set m k v).map (·.1) = if k ∈ m.map (·.1) then m.map (·.1) else m.map (·.1) ++ [k] := by
+  induction m with
+  | nil => simp [AMap.set]
+  | cons e t ih =>
+    obtain ⟨k0, v0⟩ := e
     by_cases hk : k0 = k
-    · subst hk
-      have hzero : AMap.sumIf (fun x => decide (x = k0)) id t = 0 := by
-        clear ih
-        have hno := hn.1
-        clear hn
-        induction t with
-        | nil => rfl
-        | cons e rest ihr =>
-          obtain ⟨k1, w⟩ := e
-          simp only [List.map_cons, List.mem_cons, not_or] at hno
-          have : ¬ (k1 = k0) := fun e => hno.1 e.symm
-          simp only [AMap.sumIf, this, decide_false, Bool.false_eq_true, if_false]
-          rw [ihr hno.2]
-      simp [AMap.sumIf, AMap.get?, hzero]
-    · simp only [AMap.sumIf, hk, decide_false, Bool.false_eq_true, if_false, AMap.get?]
+    · subst hk; simp [AMap.set]
+    · have hk' : ¬ k = k0 := fun e => hk e.symm
+      simp only [AMap.set, hk, if_false, List.map_cons, ih, List.mem_cons, hk', false_or]
+      split <;> simp
+
+theorem KeysNodup.set {K V : Type} [DecidableEq K] {m : AMap K V} (h : KeysNodup m) (k : K) (v : V) :
+    KeysNodup (AMap.set m k v) := by
+  unfold KeysNodup at h ⊢
+  rw [keys_set]
+  split
+  · exact h
+  · rename_i hk
+    rw [List.nodup_append]
+    refine ⟨h, by simp, ?_⟩
+    intro a ha b hb e
+    simp only [List.mem_singleton] at hb
+    subst hb; subst e; exact hk ha
+
+theorem KeysNodup.filter {K V : Type} {m : AMap K V} (h : KeysNodup m) (p : K × V → Bool) : KeysNodup (m.filter p) := by
+  unfold KeysNodup at h ⊢
+  exact List.Nodup.sublist (List.Sublist.map _ List.filter_sublist) h
+
+theorem get?_none_of_not_mem_keys {K V : Type} [DecidableEq K] : ∀ (m : AMap K V) (k : K), k ∉ m.map (·.1) → AMap.get? m k = none
+  | [], _, _ => rfl
+  | (k0, v0) :: t, k, h => by
+    simp only [List.map_cons, List.mem_cons, not_or] at h
+    have : ¬ k0 = k := fun e => h.1 e.symm
+    simp only [AMap.get?, this, if_false]
+    exact get?_none_of_not_mem_keys t k h.2
+
+/-! ### sums over entries -/
+
+theorem coinsIn_entriesOf (m : AMap (Addr × Denom) Nat) (a : Addr) (d : Denom) :
+    coinsIn (entriesOf m a) d = AMap.sumIf (fun k : Addr × Denom => k.1 = a && k.2 = d) id m := by
+  induction m with
+  | nil => rfl
+  | cons e t ih =>
+    obtain ⟨⟨a0, d0⟩, v⟩ := e
+    unfold entriesOf at ih ⊢
+    by_cases ha : a0 = a
+    · simp only [List.filter_cons, ha, decide_true, if_true, List.map_cons, AMap.sumIf, Bool.true_and]
+      rw [coinsIn_cons, ih]
+      by_cases hd : d0 = d <;> simp [hd]
+    · simp only [List.filter_cons, ha, decide_false, Bool.false_eq_true, if_false, AMap.sumIf, Bool.false_and]
       rw [ih]; simp
 
-theorem ownerEarned_eq_get? (s : State) (o : Addr) (d : Denom) (hn : KeysNodup s.oearned) :
-    ownerEarned s o d = (AMap.get? s.oearned (o, d)).getD 0 := by
-  unfold ownerEarned
-  have := sumIf_key_get? s.oearned (o, d) hn
-  rw [← this]
-  congr 1
-  funext k
-  obtain ⟨a, b⟩ := k
-  by_cases h1 : a = o
-  · by_cases h2 : b = d
-    · simp [h1, h2]
-    · have : ¬ ((a, b) = (o, d)) := fun e => h2 (Prod.mk.inj e).2
-      simp [h1, h2, this]
-  · have : ¬ ((a, b) = (o, d)) := fun e => h1 (Prod.mk.inj e).1
-    simp [h1, this]
+/-- the denoms of an account's entries are pairwise different -/
+theorem entriesOf_nodup {m : AMap (Addr × Denom) Nat} (h : KeysNodup m) (a : Addr) : ((entriesOf m a).map (·.1)).Nodup := by
+  induction m with
+  | nil => simp [entriesOf]
+  | cons e t ih =>
+    obtain ⟨⟨a0, d0⟩, v⟩ := e
+    unfold KeysNodup at h
+    simp only [List.map_cons, List.nodup_cons] at h
+    have ih' := ih h.2
+    unfold entriesOf at ih' ⊢
+    by_cases ha : a0 = a
+    · simp only [List.filter_cons, ha, decide_true, if_true, List.map_cons, List.nodup_cons]
+      refine ⟨?_, ih'⟩
+      intro hm
+      simp only [List.mem_map, List.mem_filter, decide_eq_true_eq] at hm
+      obtain ⟨x, ⟨y, ⟨hy, hya⟩, rfl⟩, hx⟩ := hm
+      apply h.1
+      simp only [List.mem_map]
+      refine ⟨y, hy, ?_⟩
+      obtain ⟨⟨ya, yd⟩, yv⟩ := y
+      simp only at hya hx ⊢
+      rw [hya, hx, ha]
+    · simp only [List.filter_cons, ha, decide_false, Bool.false_eq_true, if_false]
+      exact ih'
 
-/-- **F-svc-2, the part that holds**: when provider-side and owner-side entries are all in one denom `d0`
-(unique keys, positive amounts), an accepted per-provider withdrawal lowers the owner-side tally by
-exactly the provider's earned fees -/
-theorem withdraw_owner_tally_single_denom {s s' : State} {owner p : Addr} (d0 : Denom)
-    (h : withdrawProvider s owner p = .ok s')
-    (hn1 : KeysNodup s.earned) (hn2 : KeysNodup s.oearned)
-    (hd1 : ∀ e, e ∈ s.earned → e.1.2 = d0) (hd2 : ∀ e, e ∈ s.oearned → e.1.2 = d0)
-    (hpos : ∀ e, e ∈ s.earned → 0 < e.2) (hpos2 : ∀ e, e ∈ s.oearned → 0 < e.2) :
-    (AMap.get? s'.oearned (owner, d0)).getD 0 + (AMap.get? s.earned (p, d0)).getD 0 =
-      (AMap.get? s.oearned (owner, d0)).getD 0 := by
-  unfold withdrawProvider at h
-  split at h
-  · cases h
-  split at h
-  · cases h
-  rename_i oe' hto
+theorem coinsIn_zero_of_not_mem : ∀ (c : Coins) (d : Denom), d ∉ c.map (·.1) → coinsIn c d = 0
+  | [], _, _ => rfl
+  | (d0, n) :: t, d, h => by
+    simp only [List.map_cons, List.mem_cons, not_or] at h
+    have : ¬ d0 = d := fun e => h.1 e.symm
+    rw [coinsIn_cons, coinsIn_zero_of_not_mem t d h.2]
+    simp [this]
+
+/-- with pairwise different denoms `AmountOf` (first match) is the sum -/
+theorem amountOf_eq_coinsIn : ∀ (c : Coins) (d : Denom), (c.map (·.1)).Nodup → Coins.amountOf c d = coinsIn c d
+  | [], _, _ => rfl
+  | (d0, n) :: t, d, h => by
+    simp only [List.map_cons, List.nodup_cons] at h
+    rw [coinsIn_cons]
+    by_cases hd : d0 = d
+    · subst hd
+      rw [coinsIn_zero_of_not_mem t d0 h.1]
+      simp [Coins.amountOf, List.find?]
+    · have ih := amountOf_eq_coinsIn t d h.2
+      unfold Coins.amountOf at ih ⊢
+      simp only [List.find?, hd, decide_false, if_false]
+      rw [ih]; simp
+
+theorem coinsIn_filter_nonzero (c : Coins) (d : Denom) : coinsIn (c.filter (fun e => decide (e.2 ≠ 0))) d = coinsIn c d := by
+  induction c with
+  | nil => rfl
+  | cons e t ih =>
+    obtain ⟨d0, n⟩ := e
+    by_cases hn : n = 0
+    · subst hn
+      simp only [List.filter_cons, ne_eq, not_true_eq_false, decide_false, Bool.false_eq_true, if_false]
+      rw [ih, coinsIn_cons]; simp
+    · simp only [List.filter_cons, ne_eq, hn, not_false_eq_true, decide_true, if_true]
+      rw [coinsIn_cons, coinsIn_cons, ih]
+
+/-- `Coins.Sub` entry-wise -/
+theorem coinsIn_sub_map (pe : Coins) : ∀ (oe : Coins) (d : Denom), (oe.map (·.1)).Nodup →
+    coinsIn (oe.map (fun e => (e.1, e.2 - Coins.amountOf pe e.1))) d = coinsIn oe d - Coins.amountOf pe d
+  | [], d, _ => by simp [coinsIn, AMap.sumIf]
+  | (d0, n) :: t, d, h => by
+    simp only [List.map_cons, List.nodup_cons] at h
+    have ih := coinsIn_sub_map pe t d h.2
+    simp only [List.map_cons]
+    rw [coinsIn_cons, coinsIn_cons, ih]
+    by_cases hd : d0 = d
+    · subst hd
+      rw [coinsIn_zero_of_not_mem t d0 h.1]
+      simp
+    · simp [hd]
+
+theorem coinsSub_spec {oe pe diff : Coins} (h : coinsSub oe pe = some diff) (hn : (oe.map (·.1)).Nodup)
+    (hp : (pe.map (·.1)).Nodup) (d : Denom) :
+    coinsIn diff d = coinsIn oe d - coinsIn pe d ∧ (diff.map (·.1)).Nodup := by
+  unfold coinsSub at h
   split at h
   · cases h
   cases h
-  simp only
-  unfold ownerTallyAfter at hto
-  rw [entriesOf_single d0 s.earned p hn1 hd1, entriesOf_single d0 s.oearned owner hn2 hd2] at hto
-  have getpos : ∀ (m : AMap (Addr × Denom) Nat) k v, AMap.get? m k = some v → (k, v) ∈ m := by
-    intro m
-    induction m with
-    | nil => intro k v hg; simp [AMap.get?] at hg
-    | cons e t ih =>
-      intro k v hg
-      obtain ⟨k0, v0⟩ := e
-      simp only [AMap.get?] at hg
-      split at hg
-      · rename_i hk; cases hg; subst hk; exact List.mem_cons_self ..
-      · exact List.mem_cons_of_mem _ (ih k v hg)
-  cases hpe : AMap.get? s.earned (p, d0) with
-  | none =>
-    cases hoe : AMap.get? s.oearned (owner, d0) with
-    | none =>
-      rw [hpe, hoe] at hto
-      simp only [coinsEq, sortCoins, List.foldr, List.length_nil, beq_self_eq_true, Bool.and_self, decide_true, if_true] at hto
-      cases hto
-      simp only [Option.getD]
-      have : AMap.get? (eraseAll s.oearned owner) (owner, d0) = none := by
-        unfold eraseAll
-        rw [get?_filter_key (fun k : Addr × Denom => decide (k.1 ≠ owner))]
-        simp
-      rw [this]
-    | some y =>
-      rw [hpe, hoe] at hto
-      have hy : 0 < y := hpos2 _ (getpos _ _ _ hoe)
-      simp only [coinsEq, List.length_nil, List.length_cons, Nat.zero_ne_add_one, decide_false, Bool.false_and,
-        Bool.false_eq_true, if_false, coinsSub, List.any_nil, List.map, Coins.amountOf, List.find?, Option.map,
-        Option.getD, Nat.sub_zero, List.filter, Option.some.injEq] at hto
-      have hne : (decide (y ≠ 0)) = true := by simp; omega
-      simp only [hne] at hto
-      subst hto
-      simp only [setEntries, List.foldl, Option.getD]
-      rw [AMap.get?_set_self]
-      simp
-  | some x =>
-    have hx : 0 < x := hpos _ (getpos _ _ _ hpe)
-    cases hoe : AMap.get? s.oearned (owner, d0) with
-    | none =>
-      rw [hpe, hoe] at hto
-      simp [coinsEq, coinsSub, Coins.amountOf, hx] at hto
-    | some y =>
-      rw [hpe, hoe] at hto
-      by_cases hxy : x = y
-      · subst hxy
-        simp only [coinsEq, sortCoins, List.foldr, insertCoin, List.length_cons, List.length_nil, beq_self_eq_true,
-          Bool.and_self, decide_true, if_true] at hto
-        cases hto
-        have : AMap.get? (eraseAll s.oearned owner) (owner, d0) = none := by
-          unfold eraseAll
-          rw [get?_filter_key (fun k : Addr × Denom => decide (k.1 ≠ owner))]
-          simp
-        rw [this]; simp
-      · have hne : ¬ ((d0, x) = (d0, y)) := fun e => hxy (Prod.mk.inj e).2
-        have hce : coinsEq [(d0, x)] [(d0, y)] = false := by
-          simp [coinsEq, sortCoins, insertCoin, hne]
-        rw [hce] at hto
-        simp only [Bool.false_eq_true, if_false, coinsSub, List.any_cons, List.any_nil, Coins.amountOf, List.find?,
-          decide_true, Option.map, Option.getD, Bool.or_false, List.map] at hto
-        by_cases hlt : y < x
-        · simp [hlt] at hto
-        · have hd : decide (y < x) = false := by simp; omega
-          simp only [hd, Bool.false_eq_true, if_false, Option.some.injEq, List.filter] at hto
-          have hnz : decide (y - x ≠ 0) = true := by simp; omega
-          simp only [hnz] at hto
-          subst hto
-          simp only [setEntries, List.foldl, Option.getD]
-          rw [AMap.get?_set_self]
-          simp; omega
+  refine ⟨?_, ?_⟩
+  · rw [coinsIn_filter_nonzero, coinsIn_sub_map pe oe d hn, amountOf_eq_coinsIn pe d hp]
+  · have hm : (oe.map (fun e => (e.1, e.2 - Coins.amountOf pe e.1))).map (·.1) = oe.map (·.1) := by
+      rw [List.map_map]; rfl
+    exact List.Nodup.sublist (List.Sublist.map _ List.filter_sublist) (by rw [hm]; exact hn)
+
+theorem coinsIn_of_sortCoins_eq {a b : Coins} (h : sortCoins a = sortCoins b) (d : Denom) : coinsIn a d = coinsIn b d := by
+  rw [← coinsIn_sortCoins a d, ← coinsIn_sortCoins b d, h]
+
+theorem coinsEq_coinsIn {a b : Coins} (h : coinsEq a b = true) (d : Denom) : coinsIn a d = coinsIn b d := by
+  unfold coinsEq at h
+  simp only [Bool.and_eq_true, decide_eq_true_eq, beq_iff_eq] at h
+  exact coinsIn_of_sortCoins_eq h.2 d
+
+/-! ### writing the owner's remaining entries -/
+
+theorem sumIf_setEntries_other (q : Addr × Denom → Bool) (owner : Addr) (hq : ∀ d, q (owner, d) = false) :
+    ∀ (c : Coins) (m : AMap (Addr × Denom) Nat), AMap.sumIf q id (setEntries m owner c) = AMap.sumIf q id m
+  | [], _ => rfl
+  | (d0, n) :: t, m => by
+    simp only [setEntries, List.foldl]
+    have := sumIf_setEntries_other q owner hq t (AMap.set m (owner, d0) n)
+    unfold setEntries at this
+    rw [this, AMap.sumIf_set_of_not q id m (owner, d0) n (hq d0)]
+
+theorem sumIf_setEntries_fresh (owner : Addr) (d : Denom) : ∀ (c : Coins) (m : AMap (Addr × Denom) Nat),
+    (c.map (·.1)).Nodup → (∀ e, e ∈ c → AMap.get? m (owner, e.1) = none) →
+    AMap.sumIf (fun k : Addr × Denom => k.1 = owner && k.2 = d) id (setEntries m owner c) =
+      AMap.sumIf (fun k : Addr × Denom => k.1 = owner && k.2 = d) id m + coinsIn c d
+  | [], _, _, _ => by simp [setEntries, coinsIn, AMap.sumIf]
+  | (d0, n) :: t, m, hn, hf => by
+    simp only [List.map_cons, List.nodup_cons] at hn
+    simp only [setEntries, List.foldl]
+    have ih := sumIf_setEntries_fresh owner d t (AMap.set m (owner, d0) n) hn.2 (by
+      intro e he
+      have hne : (owner, d0) ≠ (owner, e.1) := by
+        intro eq
+        have : d0 = e.1 := (Prod.mk.inj eq).2
+        exact hn.1 (by rw [this]; exact List.mem_map_of_mem (f := fun x : Denom × Nat => x.1) he)
+      rw [AMap.get?_set_other _ _ _ _ hne]
+      exact hf e (List.mem_cons_of_mem _ he))
+    unfold setEntries at ih
+    rw [ih]
+    have hs := AMap.sumIf_set (fun k : Addr × Denom => decide (k.1 = owner) && decide (k.2 = d)) (id : Nat → Nat) m (owner, d0) n
+    rw [hf (d0, n) (List.mem_cons_self ..)] at hs
+    rw [coinsIn_cons]
+    by_cases hd : d0 = d
+    · simp only [hd, decide_true, Bool.and_self, if_true, Option.map, Option.getD, id] at hs ⊢
+      omega
+    · simp only [hd, decide_false, Bool.and_false, Bool.false_eq_true, if_false, Option.map, Option.getD] at hs ⊢
+      omega
+
+theorem sumIf_eraseAll_self (m : AMap (Addr × Denom) Nat) (owner : Addr) (d : Denom) :
+    AMap.sumIf (fun k : Addr × Denom => k.1 = owner && k.2 = d) id (eraseAll m owner) = 0 := by
+  induction m with
+  | nil => rfl
+  | cons e t ih =>
+    obtain ⟨⟨a, d0⟩, v⟩ := e
+    unfold eraseAll at ih ⊢
+    by_cases ha : a = owner
+    · simp only [List.filter_cons, ha, ne_eq, not_true_eq_false, decide_false, Bool.false_eq_true, if_false]
+      exact ih
+    · simp only [List.filter_cons, ne_eq, ha, not_false_eq_true, decide_true, if_true, AMap.sumIf, decide_false,
+        Bool.false_and, Bool.false_eq_true, if_false]
+      rw [ih]
+
+theorem sumIf_eraseAll_other (q : Addr × Denom → Bool) (a : Addr) (hq : ∀ d, q (a, d) = false)
+    (m : AMap (Addr × Denom) Nat) : AMap.sumIf q id (eraseAll m a) = AMap.sumIf q id m := by
+  induction m with
+  | nil => rfl
+  | cons e t ih =>
+    obtain ⟨⟨a0, d0⟩, v⟩ := e
+    unfold eraseAll at ih ⊢
+    by_cases ha : a0 = a
+    · subst ha
+      simp only [List.filter_cons, ne_eq, not_true_eq_false, decide_false, Bool.false_eq_true, if_false, AMap.sumIf, hq d0]
+      rw [ih]; simp
+    · simp only [List.filter_cons, ne_eq, ha, not_false_eq_true, decide_true, if_true, AMap.sumIf]
+      rw [ih]
+
+theorem get?_eraseAll_self (m : AMap (Addr × Denom) Nat) (a : Addr) (d : Denom) : AMap.get? (eraseAll m a) (a, d) = none := by
+  unfold eraseAll
+  rw [get?_filter_key (fun k : Addr × Denom => decide (k.1 ≠ a))]
+  simp
+
+/-- splitting a sum by one account's entries -/
+theorem sumIf_eraseAll_split (q : Addr × Denom → Bool) (p : Addr) (m : AMap (Addr × Denom) Nat) :
+    AMap.sumIf q id (eraseAll m p) + AMap.sumIf (fun k => q k && decide (k.1 = p)) id m = AMap.sumIf q id m := by
+  induction m with
+  | nil => rfl
+  | cons e t ih =>
+    obtain ⟨⟨a0, d0⟩, v⟩ := e
+    unfold eraseAll at ih ⊢
+    simp only [ne_eq] at ih
+    by_cases ha : a0 = p
+    · subst ha
+      simp only [List.filter_cons, ne_eq, not_true_eq_false, decide_false, Bool.false_eq_true, if_false, AMap.sumIf,
+        decide_true, Bool.and_true]
+      split <;> omega
+    · simp only [List.filter_cons, ne_eq, ha, not_false_eq_true, decide_true, if_true, AMap.sumIf, decide_false,
+        Bool.and_false, Bool.false_eq_true, if_false]
+      split <;> omega
+
+/-! ### the two steps that move the tallies -/
+
+/-- **a per-provider withdrawal keeps the tallies in agreement**, whatever the number of fee denoms -/
+theorem tally_withdrawProvider {s s' : State} {owner p : Addr} (ht : TallyInv s) (hn1 : KeysNodup s.earned)
+    (hn2 : KeysNodup s.oearned) (h : withdrawProvider s owner p = .ok s') :
+    TallyInv s' ∧ KeysNodup s'.earned ∧ KeysNodup s'.oearned := by
+  unfold withdrawProvider at h
+  split at h
+  · cases h
+  rename_i hown
+  have hown' : AMap.get? s.owners p = some owner := Decidable.of_not_not hown
+  split at h
+  · cases h
+  rename_i T hT
+  split at h
+  · cases h
+  cases h
+  have hpe := entriesOf_nodup hn1 p
+  have hoe := entriesOf_nodup hn2 owner
+  -- the new owner-side table
+  have hTspec : KeysNodup T ∧ (∀ o d, AMap.sumIf (fun k : Addr × Denom => k.1 = o && k.2 = d) id T =
+      if o = owner then coinsIn (entriesOf s.oearned owner) d - coinsIn (entriesOf s.earned p) d
+      else AMap.sumIf (fun k : Addr × Denom => k.1 = o && k.2 = d) id s.oearned) := by
+    unfold ownerTallyAfter at hT
+    split at hT
+    · rename_i heq
+      cases hT
+      refine ⟨hn2.filter _, ?_⟩
+      intro o d
+      by_cases ho : o = owner
+      · subst ho
+        rw [if_pos rfl, sumIf_eraseAll_self, coinsEq_coinsIn heq d]; omega
+      · rw [if_neg ho]
+        exact sumIf_eraseAll_other _ owner (fun d' => by have ho' : ¬ owner = o := fun e => ho e.symm; simp [ho']) _
+    · cases hsub : coinsSub (entriesOf s.oearned owner) (entriesOf s.earned p) with
+      | none => rw [hsub] at hT; cases hT
+      | some diff =>
+        rw [hsub] at hT
+        simp only [Option.map] at hT
+        cases hT
+        have hspec := fun d => coinsSub_spec hsub hoe hpe d
+        refine ⟨?_, ?_⟩
+        · -- keys stay unique under `set`
+          have : ∀ (c : Coins) (m : AMap (Addr × Denom) Nat), KeysNodup m → KeysNodup (setEntries m owner c) := by
+            intro c
+            induction c with
+            | nil => intro m hm; exact hm
+            | cons e t ih => intro m hm; simp only [setEntries, List.foldl]; exact ih _ (hm.set _ _)
+          exact this _ _ (hn2.filter _)
+        · intro o d
+          by_cases ho : o = owner
+          · subst ho
+            rw [if_pos rfl, sumIf_setEntries_fresh o d diff (eraseAll s.oearned o) (hspec d).2
+              (fun e _ => get?_eraseAll_self _ _ _), sumIf_eraseAll_self, (hspec d).1]
+            omega
+          · rw [if_neg ho, sumIf_setEntries_other _ owner (fun d' => by have ho' : ¬ owner = o := fun e => ho e.symm; simp [ho'])]
+            exact sumIf_eraseAll_other _ owner (fun d' => by have ho' : ¬ owner = o := fun e => ho e.symm; simp [ho']) _
+  refine ⟨?_, hn1.filter _, hTspec.1⟩
+  intro o d
+  have hprov := sumIf_eraseAll_split (fun k : Addr × Denom => decide (k.2 = d) && ownedBy s o k.1) p s.earned
+  have hinv := ht o d
+  unfold providersEarned ownerEarned at hinv
+  show AMap.sumIf (fun k : Addr × Denom => decide (k.2 = d) && ownedBy s o k.1) id (eraseAll s.earned p) =
+    AMap.sumIf (fun k : Addr × Denom => decide (k.1 = o) && decide (k.2 = d)) id T
+  rw [hTspec.2 o d]
+  -- the provider's share of the owner's provider-side total
+  have hshare : AMap.sumIf (fun k : Addr × Denom => (decide (k.2 = d) && ownedBy s o k.1) && decide (k.1 = p)) id s.earned =
+      if o = owner then coinsIn (entriesOf s.earned p) d else 0 := by
+    rw [coinsIn_entriesOf]
+    by_cases ho : o = owner
+    · subst ho
+      rw [if_pos rfl]
+      congr 1
+      funext k
+      by_cases hk : k.1 = p
+      · have hob : ownedBy s o p = true := by unfold ownedBy; rw [hown']; simp
+        simp [hk, hob, Bool.and_comm]
+      · simp [hk]
+    · rw [if_neg ho]
+      have hz : ∀ k : Addr × Denom, ((decide (k.2 = d) && ownedBy s o k.1) && decide (k.1 = p)) = false := by
+        intro k
+        by_cases hk : k.1 = p
+        · have : ownedBy s o k.1 = false := by
+            unfold ownedBy; rw [hk, hown']
+            simp only [beq_eq_false_iff_ne, ne_eq, Option.some.injEq]
+            exact fun e => ho e.symm
+          simp [this]
+        · simp [hk]
+      clear hprov hinv
+      induction s.earned with
+      | nil => rfl
+      | cons e t ih => simp only [AMap.sumIf, hz e.1, Bool.false_eq_true, if_false, ih, Nat.zero_add]
+  rw [hshare] at hprov
+  by_cases ho : o = owner
+  · subst ho
+    simp only [if_true] at hprov ⊢
+    rw [← coinsIn_entriesOf] at hinv
+    omega
+  · simp only [ho, if_false] at hprov ⊢
+    omega
+
+/-- **an answer raises both tallies by the same amount**: provider-side entry of the answering provider and
+owner-side entry of its owner -/
+theorem tally_bump {s : State} (ht : TallyInv s) {p o : Addr} (ho : AMap.get? s.owners p = some o) (d0 : Denom) (n : Nat)
+    (s' : State) (e1 : s'.earned = bump s.earned p d0 n) (e2 : s'.oearned = bump s.oearned o d0 n)
+    (e3 : s'.owners = s.owners) : TallyInv s' := by
+  intro o' d
+  have hinv := ht o' d
+  unfold providersEarned ownerEarned ownedBy at hinv ⊢
+  rw [e1, e2, e3]
+  unfold bump
+  split
+  · exact hinv
+  · have h1 := AMap.sumIf_set (fun k : Addr × Denom => decide (k.2 = d) && (AMap.get? s.owners k.1 == some o')) (id : Nat → Nat)
+      s.earned (p, d0) (AMap.getD s.earned (p, d0) 0 + n)
+    have h2 := AMap.sumIf_set (fun k : Addr × Denom => decide (k.1 = o') && decide (k.2 = d)) (id : Nat → Nat)
+      s.oearned (o, d0) (AMap.getD s.oearned (o, d0) 0 + n)
+    have hb1 : ((AMap.get? s.earned (p, d0)).map (id : Nat → Nat)).getD 0 = AMap.getD s.earned (p, d0) 0 := by
+      unfold AMap.getD; cases AMap.get? s.earned (p, d0) <;> simp
+    have hb2 : ((AMap.get? s.oearned (o, d0)).map (id : Nat → Nat)).getD 0 = AMap.getD s.oearned (o, d0) 0 := by
+      unfold AMap.getD; cases AMap.get? s.oearned (o, d0) <;> simp
+    rw [hb1] at h1
+    rw [hb2] at h2
+    simp only [ho] at h1
+    by_cases hd : d0 = d
+    · by_cases hoo : o = o'
+      · subst hd; subst hoo
+        simp only [decide_true, Bool.and_self, beq_self_eq_true, if_true, id] at h1 h2
+        omega
+      · have hne : (some o == some o') = false := by simp [hoo]
+        have hne2 : decide (o = o') = false := by simp [hoo]
+        simp only [hne, hne2, Bool.and_false, Bool.false_and, Bool.false_eq_true, if_false] at h1 h2
+        omega
+    · simp only [hd, decide_false, Bool.false_and, Bool.and_false, Bool.false_eq_true, if_false] at h1 h2
+      omega
 
 end Irismod.Proofs.Service
